@@ -27,7 +27,7 @@ func init() {
 			"LIKE patterns contain no backslash; non-ASCII characters in data are caseless, so ASCII folding is the case-insensitivity asserted",
 			"numeric literals are rendered without exponent; the reference model (internal/ref) is trusted",
 		},
-		Floor:         featList("op.eq", "op.ne", "op.lt", "op.le", "op.gt", "op.ge", "and", "or", "not", "in", "notin", "in.subquery", "between", "notbetween", "like", "notlike", "isnull", "isnotnull", "istrue", "isfalse", "law.partition", "law.notin", "law.between", "native-int", "in.subquery.correlated", "naming.alias", "naming.alias-unqualified", "naming.table-qualified", "const.spelled", "opt.idiomatic-arrays", "source.dual", "table.long", "reexec.vars", "reexec.document"),
+		Floor:         featList("op.eq", "op.ne", "op.lt", "op.le", "op.gt", "op.ge", "and", "or", "not", "in", "notin", "in.subquery", "between", "notbetween", "like", "notlike", "isnull", "isnotnull", "istrue", "isfalse", "law.partition", "law.notin", "law.between", "native-int", "in.subquery.correlated", "naming.alias", "naming.alias-unqualified", "naming.table-qualified", "const.spelled", "opt.idiomatic-arrays", "source.dual", "table.long", "reexec.vars", "reexec.document", "column.nonword"),
 		MinNontrivial: 50,
 		Phases: []fw.Phase{
 			{Name: "pred", N: func(t fw.Tier) int { return pick(t, 16000, 600000) }, Run: c01Pred},
@@ -56,6 +56,28 @@ func c01Tables(c *fw.Case) (*gen.Table, *gen.Table) {
 		c.Feature("table.long")
 	}
 	t := gen.RandTable(c.R, gen.TableSpec{Name: "t1", MinRows: minRows, MaxRows: maxRows, NumCols: 2, StrCols: 2, BoolCols: 1, NullCols: 2, StrStyle: gen.Hostile})
+	if c.Chance(0.12) {
+		// column names that are not plain words: a hyphen, a blank, a non-ASCII letter
+		rename := map[string]string{"s2": "s-2", "n2": "n 2", "z1": "zé1"}
+		for i, col := range t.Cols {
+			if to, ok := rename[col.Name]; ok {
+				t.Cols[i].Name = to
+			}
+		}
+		for from, to := range rename {
+			if p, ok := t.Pools[from]; ok {
+				t.Pools[to] = p
+				delete(t.Pools, from)
+			}
+			for _, row := range t.Rows {
+				if v, ok := row[from]; ok {
+					row[to] = v
+					delete(row, from)
+				}
+			}
+		}
+		c.Feature("column.nonword")
+	}
 	o := gen.RandTable(c.R, gen.TableSpec{Name: "t2", MaxRows: 6, NumCols: 1, StrCols: 1, StrStyle: gen.Hostile})
 	// let the other table share values with t1 so that IN (subquery) matches
 	for _, row := range o.Rows {
